@@ -47,7 +47,9 @@ def ok_value(cls, v, good):
 
 
 SPEC("pane.classes", "_make_subclass.bounded", bounded=True,
-     ensures=[(lambda kind, result: type_equiv(result, {"forwarded": str, "explicit-generic": str, "partially-bound": (int, str)}[kind]), ["C17"], "reparam")],
+     ensures=[(lambda kind, result: type_equiv(result, {"forwarded": str, "explicit-generic": str, "partially-bound": (int, str),
+                                                        "swapped": (U_, T_, int, str), "grandchild": (U_, T_),
+                                                        "rebound-same-var": (T_, float, int), "nested-generic": int}[kind]), ["C17"], "reparam")],
      no_raise=["C17"],
      note="bounded: three spellings of re-parameterised generic dataclasses (typing.Generic bookkeeping is outside the symbolic engine)")
 
